@@ -26,6 +26,9 @@ def pool_json(g):
         M('T', ['o'], 'Type', docs.type_matcher(['o'], 'map'), typ='map'),
         M('C', ['a'], 'Custom', docs.custom_matcher('a', True, '"c"'), newv='c'),
         M('A', ['missing'], 'Any', docs.any_matcher(['missing'])),
+        M('A', ['disk%s'], 'Any', docs.any_matcher(['disk%s'])),
+        M('C', ['load%d.x'], 'Custom', docs.custom_matcher('load%d.x', True, '1')),
+        M('T', ['n'], 'Type', docs.type_matcher(['n'], 'string'), typ='string'),
         M('A', ['o.nope'], 'Any', docs.any_matcher(['o.nope'])),
         M('T', ['a'], 'Type', docs.type_matcher(['a'], 'string'), typ='string'),
         M('T', ['nope'], 'Type', docs.type_matcher(['nope'], 'string'), typ='string'),
